@@ -29,6 +29,33 @@ def plan(rng, data, n_faults, kinds, has_old=True, aligned=None):
     """Draw a plan of n_faults faults for the given stored bytes."""
     out = []
     lines = data.count(b"\n") + 1
+    multi = [r for r in (aligned or []) if r[1] - r[0] > 2]
+    if n_faults >= 2 and multi and rng.random() < 0.4:
+        # clustered plan: all faults hit the record of one element (a lost line and a flipped
+        # bit in the same Property is what one bad sector does)
+        l1, l2 = rng.choice(multi)
+        starts, pos = [], 0
+        for ln in data.split(b"\n"):
+            starts.append(pos)
+            pos += len(ln) + 1
+        starts.append(pos)
+        for _ in range(n_faults):
+            if rng.random() < 0.5:
+                k = rng.randrange(l1 + 1, l2)
+                out.append({"kind": "drop", "l1": k, "l2": k + 1})
+            else:
+                a, b = starts[l1], max(starts[l1] + 1, starts[min(l2, len(starts) - 1)] - 1)
+                spans = [sp for sp in hot_spans(data) if a <= sp[0] < b] or \
+                    [m.span(1) for m in _TEXT_SPANS.finditer(data) if a <= m.start(1) < b]
+                if spans:
+                    x, y = rng.choice(spans)
+                    off = rng.randrange(x, max(x + 1, y))
+                else:
+                    off = rng.randrange(a, b)
+                out.append({"kind": "bitflip", "off": off, "bit": rng.randrange(8)})
+        # drops are applied top down: later line numbers shift; keep them in descending order
+        out.sort(key=lambda f: -f.get("l1", -1))
+        return out
     for _ in range(n_faults):
         kind = rng.choice(kinds)
         if kind in ("torn", "stale") and not has_old:
